@@ -104,7 +104,7 @@ def run(repo):
         if not in_scope(ci):
             continue
         for name, fi in sorted(ci.methods.items()):
-            if name in ('__init__', '__repr__', '__str__'):
+            if name in ('__init__', '__repr__', '__str__') or fi.absorbed:
                 continue
             for call, k2 in returned_ctor_calls(repo, fi):
                 if not (k2 is ci or repo.is_subclass(ci, k2)):
@@ -127,6 +127,14 @@ def run(repo):
                 for p, field in sorted(sp.items()):
                     const_bound = p in explicit and isinstance(env.get(p), ast.Constant) and \
                         (ci.fq, name) not in EXEMPT_METHOD and field in _own_fields(repo, ci)
+                    if const_bound:
+                        # spelling out the default (sparray=None) is the same as leaving the parameter out
+                        allp = [x.arg for x in a.posonlyargs + a.args]
+                        dflt = dict(zip(allp[len(allp) - len(a.defaults):], a.defaults))
+                        d = dflt.get(p)
+                        if isinstance(d, ast.Constant) and d.value == env[p].value and type(d.value) is type(env[p].value):
+                            const_bound = False
+                            explicit = explicit - {p}
                     if const_bound:
                         ok = False
                     elif p in explicit:
@@ -181,7 +189,7 @@ def run(repo):
             if not in_scope(c):
                 continue
             for name, fi in sorted(c.methods.items()):
-                if name in ('__init__', '__repr__', '__str__', '__call__'):
+                if name in ('__init__', '__repr__', '__str__', '__call__') or fi.absorbed:
                     continue
                 if repo.resolve_method(s, name) is not fi:
                     continue                      # overridden somewhere between S and c
@@ -205,6 +213,8 @@ def run(repo):
         for n in ast.walk(m.tree):
             if isinstance(n, ast.Attribute) and isinstance(n.ctx, ast.Load):
                 loads[n.attr] = loads.get(n.attr, 0) + 1
+            elif isinstance(n, ast.AugAssign) and isinstance(n.target, ast.Attribute):
+                loads[n.target.attr] = loads.get(n.target.attr, 0) + 1      # x.f += v reads x.f
     for ci in repo.all_classes():
         if ci.module in ('deco', 'cpt_solver_bkp'):
             continue
